@@ -276,6 +276,33 @@ Fixpoint spec_object_items (path : list string) (o : object) : list (item (list 
 Definition spec_items (d : device) : list (item (list string)) :=
   root_items own_atoms ++ flat_map (spec_object_items []) (d_objects d).
 
+(* "No gate tests a predicate nobody wrote": the atoms that occur in the description at all.  The own cfg of
+   every object at any depth, of every field of every register / command, and of every variant of every
+   inline enum of those fields.  (The inline enum's own cfg is NOT listed: propagate_cfg overwrites it.) *)
+Definition field_written_atoms (f : field) : list string :=
+  (own_atoms (f_cfg f) ++
+   match f_conv f with
+   | Some (ConvEnum e _) => flat_map (fun v => own_atoms (v_cfg v)) (e_variants e)
+   | _ => []
+   end)%list.
+
+Definition object_fields (o : object) : list field :=
+  match o with
+  | ORegister r => rg_fields r
+  | OCommand c => (cm_in_fields c ++ cm_out_fields c)%list
+  | _ => []
+  end.
+
+Fixpoint object_written_atoms (o : object) : list string :=
+  (own_atoms (object_cfg o) ++
+   flat_map field_written_atoms (object_fields o) ++
+   match o with
+   | OBlock _ _ _ _ objs => flat_map object_written_atoms objs
+   | _ => []
+   end)%list.
+
+Definition written_atoms (d : device) : list string := flat_map object_written_atoms (d_objects d).
+
 (* the gate the spec gives to every object, in pre-order (used to phrase the walk theorems) *)
 Fixpoint spec_gates_object (path : list string) (o : object) : list (list string) :=
   let p := (own_atoms (object_cfg o) ++ path)%list in
